@@ -301,6 +301,9 @@ static sqf::runtime::runtime::result execute_do(sqf::runtime::runtime& runtime, 
 #endif // DF__SQF_RUNTIME__ASSEMBLY_DEBUG_ON_EXECUTE
 
 
+#ifdef SQFVM_RUNTIME_VERIF
+        if (runtime.verif_before_instruction) { runtime.verif_before_instruction(); }
+#endif
         (*instruction)->execute(runtime);
 
 
